@@ -5,7 +5,10 @@ OneBlock / SLoop), invariant Bounded05; explored over hostile frames (blocks at 
 literals beyond the limit, a thousand and 32800 maximum-length matches, a block as large as a 256 KiB / 8 MiB window after
 the window was filled) and all strategies.  Every transition is replayed on the real decoder.  c05exec drives every
 frame through every strategy and front end under a counting allocator: bytes held beyond the window after each call
-and the heap peak must stay within window + requested + 128 KiB (twice that plus slack for the heap).
+and the heap peak must stay within window + requested + 128 KiB (twice that plus slack for the heap).  The incremental
+strategies run a second time on a decoder that has just finished a frame with an 8 MiB window, and whatever a single
+collect() hands out -- bytes the decoder was holding -- must stay within THIS frame's window + requested + 128 KiB: the
+bound is per frame, not per decoder history, and it does not rely on the decoder's own idea of its window.
 """
 import json
 from ..common import *
